@@ -19,6 +19,7 @@ CHECKS = {
  'C07': dict(cat='proof', sec='3/C07', engine='E2 symx (z3)', text='The 12 stencils, fd_map, d3_onesided/periodic/symmetric, d3x/d3y/d3z and the tensor wrappers are executed (real code objects, numpy re-bound to an index-function array model) on symbolic arrays of symbolic size; z3 proves for ALL N >= N_min (computed: 3p/2, p/2, p/2+1), ALL grid points, all three axes of a non-cubic grid and orders 2,4,6,8 that every output sample is the linear combination with the unique weights satisfying the order conditions, with wrap/mirror index maps and every read index in range.', note='A1 rational arithmetic for weights; A2 numpy slicing/concatenate/transpose semantics as modelled in engine/symx.py (cross-checked natively by the replay harness); Taylor theorem for "exact on degree <= p => order p"', tech='symbolic execution of the real code on z3-backed arrays (unbounded N, i); z3 discharges every verification condition'),
  'C08': dict(cat='proof', sec='3/C08', text='Closed-form determinant/inverse vs. Leibniz / Gauss-Jordan on generic symmetric matrices (array and list forms), populate_4Riemann placement and symmetries, all algebraic AurelCore keys against their specs, and the identity list of the property (inverse x metric = 1, det g = -alpha^2 det gamma, n.n = -1, raise/lower, trace-free, unit conformal determinant, ...) as lemmas on spec and real chain. safe_division: exhaustive type-dispatch x broadcast enumeration with a finite value set (bounded, not counted as proved).', note=TB + '; safe_division value set finite (bounded); conditioning for badly scaled inputs is outside this family'),
  'C01': dict(cat='proof', sec='3/C01', text='O1: for every documented key, every input scenario (tensor / component / partial / default inputs, fluid or T) and every reachable cache state of the guard keys found in its AST, the real body returns Spec_k(In) when callees return their specs (CacheInv); O2: __getitem__/cleanup_cache preserve CacheInv (E2); induction over histories gives history independence for all histories and cache settings. Real histories under aggressive eviction are additionally explored (bounded cross-check).', note=TB + '; requires Frozen(In) and OnShell(In) as stated in DESIGN 3/C01'),
+ 'C16': dict(cat='proof', sec='3/C16', engine='E2 symx (z3)', text='The real FiniteDifference.__init__ runs on symbolic parameters (all integer N >= 1, all real mins / spacings): N points per axis at min + i d, N attributes, extents = last point, all meshes of shape (Nx,Ny,Nz), stacks (3,...), mask_len per order incl. fallback; the real Cartesian<->spherical methods run on pointwise symbolic reals with sqrt/arccos/sin/cos uninterpreted up to five listed facts (round trip both ways, branches y=0&x<0, rho=0, r=0); cutoffmask/cutoffmask2 for ranks 1-3 and all lengths.', note='A1: x_i = min + i d over the reals; binary64 deviation <= 1 ulp per operation reported, not proved. numpy arange(N)/meshgrid contracts (A2). Trig facts listed in evidence.', tech='symbolic execution of the real constructor and conversion methods on z3-backed values; z3 (LIA / NRA) discharges every verification condition'),
  'C19': dict(cat='proof', sec='3/C19', text='Contracts on the kinematic chain for the default (Eulerian) fluid state against nabla_mu u_nu computed from the textbook 4D connection; property-level identities theta = -K, sigma = -A, omega = 0, a_i = D_i ln alpha, a.n = 0 as lemmas.'),
 }
 def main():
